@@ -16,6 +16,7 @@ pub enum Step {
     Dry,                                // bisync --dry-run
     EditConflictCopy(u8, &'static str), // overwrite every *.conflict-* file on a side
     DelConflictCopies,                  // delete every conflict copy on both sides
+    DelConflictCopiesOn(u8),            // delete every conflict copy on one side
     ArchiveFault(u8),                   // 0 remove, 1 truncate to 0, 2 garbage, 3 cut in half, 4 version bump, 5 keep only .bak
     WinOver(&'static str, u8, &'static str), // write on `side` some content whose BLAKE3 beats the given content at path
 }
@@ -32,6 +33,7 @@ pub fn scenarios() -> Vec<(&'static str, Vec<Step>)> {
         ("identical-edit-then-revert", vec![W(0, "f", "v1"), S, W(0, "f", "v2"), W(1, "f", "v2"), S, W(0, "f", "v1"), W(1, "f", "v3"), S]),
         ("identical-edit-then-revert-vs-delete", vec![W(0, "f", "v1"), S, W(0, "f", "v2"), W(1, "f", "v2"), S, W(0, "f", "v1"), D(1, "f"), S]),
         ("repeat-conflict-after-copy-deleted", vec![W(0, "f", "aaa"), W(1, "f", "bbb"), S, DelConflictCopies, S, W(1, "f", "aaa"), WinOver("f", 0, "aaa"), S]),
+        ("repeat-conflict-copy-deleted-on-one-side", vec![W(0, "f", "aaa"), W(1, "f", "bbb"), S, DelConflictCopiesOn(0), W(1, "f", "aaa"), WinOver("f", 0, "aaa"), S]),
         ("repeat-conflict-edited-copy (H7)", vec![W(0, "f", "aaa"), W(1, "f", "bbb"), S, EditConflictCopy(0, "EDITED-BY-USER"), W(1, "f", "aaa"), WinOver("f", 0, "aaa"), S]),
         ("archive-removed", vec![W(0, "f", "v1"), W(0, "g", "g1"), S, D(1, "g"), ArchiveFault(0), S]),
         ("archive-truncated", vec![W(0, "f", "v1"), S, W(0, "h", "h1"), S, D(0, "f"), ArchiveFault(3), S]),
@@ -89,7 +91,11 @@ impl Drop for Env { fn drop(&mut self) { let _ = std::fs::remove_dir_all(&self.d
 fn b3(b: &[u8]) -> String { blake3::hash(b).to_hex().to_string() }
 
 /// run one history; return the first violated clause
-pub fn run_history(name: &str, steps: &[Step]) -> Option<String> {
+pub fn run_history(name: &str, steps: &[Step]) -> Option<String> { run_history_all(name, steps).into_iter().next() }
+pub fn run_history_all(name: &str, steps: &[Step]) -> Vec<String> {
+    let mut found: Vec<String> = vec![];
+    macro_rules! bad { ($e:expr) => {{ found.push($e); }} }
+    macro_rules! stop { ($e:expr) => {{ found.push($e); return found; }} }
     let env = Env::new(name);
     let mut base: Tree = Tree::new();      // common state at the end of the previous completed run
     let mut faulted = false;               // an archive fault was injected since the last completed run
@@ -98,6 +104,7 @@ pub fn run_history(name: &str, steps: &[Step]) -> Option<String> {
             W(s, p, c) => { let f = env.side(*s).join(p); if let Some(d) = f.parent() { let _ = std::fs::create_dir_all(d); } let _ = std::fs::write(f, c); }
             D(s, p) => { let _ = std::fs::remove_file(env.side(*s).join(p)); }
             EditConflictCopy(s, c) => { for (p, _) in env.tree(*s) { if p.contains(".conflict-") { let _ = std::fs::write(env.side(*s).join(&p), c); } } }
+            DelConflictCopiesOn(s) => { for (p, _) in env.tree(*s) { if p.contains(".conflict-") { let _ = std::fs::remove_file(env.side(*s).join(&p)); } } }
             DelConflictCopies => { for s in 0..2 { for (p, _) in env.tree(s) { if p.contains(".conflict-") { let _ = std::fs::remove_file(env.side(s).join(&p)); } } } }
             WinOver(p, s, other) => {
                 let target = blake3::hash(other.as_bytes());
@@ -120,16 +127,16 @@ pub fn run_history(name: &str, steps: &[Step]) -> Option<String> {
             Dry => {
                 let (ta, tb, th) = (env.tree(0), env.tree(1), env.home_snapshot());
                 let (_code, out) = env.run(true);
-                if env.tree(0) != ta || env.tree(1) != tb { return Some(format!("[{name}] step {si}: bisync --dry-run changed a file in a tree (C15)")); }
-                if env.home_snapshot() != th { return Some(format!("[{name}] step {si}: bisync --dry-run changed the recorded state under $HOME (archive rewritten) (C15)")); }
-                if ta == tb && !faulted && !out.contains("0 action(s)") && base == ta { return Some(format!("[{name}] step {si}: a dry run right after a completed run plans actions (C06): {}", out.lines().next().unwrap_or(""))); }
+                if env.tree(0) != ta || env.tree(1) != tb { bad!(format!("[{name}] step {si}: bisync --dry-run changed a file in a tree (C15)")); }
+                if env.home_snapshot() != th { bad!(format!("[{name}] step {si}: bisync --dry-run changed the recorded state under $HOME (archive rewritten) (C15)")); }
+                if ta == tb && !faulted && !out.contains("0 action(s)") && base == ta { bad!(format!("[{name}] step {si}: a dry run right after a completed run plans actions (C06): {}", out.lines().next().unwrap_or(""))); }
             }
             S => {
                 let (ta, tb) = (env.tree(0), env.tree(1));
                 let (code, out) = env.run(false);
                 let (na, nb) = (env.tree(0), env.tree(1));
                 let completed = code == Some(0) || out.contains("conflict(s) preserved");
-                if code.is_none() || code == Some(101) || code == Some(134) { return Some(format!("[{name}] step {si}: bisync crashed: {}", out.chars().take(200).collect::<String>())); }
+                if code.is_none() || code == Some(101) || code == Some(134) { stop!(format!("[{name}] step {si}: bisync crashed: {}", out.chars().take(200).collect::<String>())); }
                 // C02: every version present before still exists on both sides, unless it was the base version of its
                 // path and the other side changed or deleted that path
                 for (side, before, other) in [(0u8, &ta, &tb), (1u8, &tb, &ta)] {
@@ -139,15 +146,15 @@ pub fn run_history(name: &str, steps: &[Step]) -> Option<String> {
                         if may_go { continue; }
                         let on_a = na.values().any(|x| x == v); let on_b = nb.values().any(|x| x == v);
                         if completed && !(on_a && on_b) {
-                            return Some(format!("[{name}] step {si}: the version {:?} of `{p}` (side {}) present before the run is gone from side {} afterwards (C02)", String::from_utf8_lossy(v), if side == 0 { "A" } else { "B" }, if !on_a { "A" } else { "B" }));
+                            bad!(format!("[{name}] step {si}: the version {:?} of `{p}` (side {}) present before the run is gone from side {} afterwards (C02)", String::from_utf8_lossy(v), if side == 0 { "A" } else { "B" }, if !on_a { "A" } else { "B" }));
                         }
                     }
                 }
                 // C07: after an archive fault nothing is removed from either side
-                if faulted { for (before, after, s) in [(&ta, &na, "A"), (&tb, &nb, "B")] { for p in before.keys() { if !after.contains_key(p) { return Some(format!("[{name}] step {si}: with a lost/damaged archive, `{p}` was removed from side {s} (C07)")); } } } }
+                if faulted { for (before, after, s) in [(&ta, &na, "A"), (&tb, &nb, "B")] { for p in before.keys() { if !after.contains_key(p) { bad!(format!("[{name}] step {si}: with a lost/damaged archive, `{p}` was removed from side {s} (C07)")); } } } }
                 if completed {
                     // C06: converged, recorded state == tree, idempotent
-                    if na != nb { let d: BTreeSet<&String> = na.keys().chain(nb.keys()).filter(|k| na.get(*k) != nb.get(*k)).collect(); return Some(format!("[{name}] step {si}: trees differ after a completed run at {d:?} (C06)")); }
+                    if na != nb { let d: BTreeSet<&String> = na.keys().chain(nb.keys()).filter(|k| na.get(*k) != nb.get(*k)).collect(); bad!(format!("[{name}] step {si}: trees differ after a completed run at {d:?} (C06)")); }
                     if let Some(a) = env.archive_file() {
                         if let Ok(v) = serde_json::from_slice::<serde_json::Value>(&std::fs::read(&a).unwrap_or_default()) {
                             let mut rec = BTreeMap::new();
@@ -155,16 +162,16 @@ pub fn run_history(name: &str, steps: &[Step]) -> Option<String> {
                                 for (k, fp) in m { let h: String = fp.get("blake3").and_then(|x| x.as_array()).map(|xs| xs.iter().map(|b| format!("{:02x}", b.as_u64().unwrap_or(0))).collect()).unwrap_or_default(); rec.insert(k.clone(), h); }
                             }
                             let want: BTreeMap<String, String> = na.iter().map(|(k, v)| (k.clone(), b3(v))).collect();
-                            if rec != want { let d: Vec<&String> = rec.keys().chain(want.keys()).filter(|k| rec.get(*k) != want.get(*k)).collect(); return Some(format!("[{name}] step {si}: the recorded common state differs from the tree at {d:?} (C06)")); }
+                            if rec != want { let d: Vec<&String> = rec.keys().chain(want.keys()).filter(|k| rec.get(*k) != want.get(*k)).collect(); bad!(format!("[{name}] step {si}: the recorded common state differs from the tree at {d:?} (C06)")); }
                         }
-                    } else { return Some(format!("[{name}] step {si}: no archive after a completed run")); }
+                    } else { bad!(format!("[{name}] step {si}: no archive after a completed run (C06)")); }
                     base = na.clone();
                     faulted = false;
                 }
             }
         }
     }
-    None
+    found
 }
 
 /// H8 / C08 "flushed before renamed": run one propagating bisync under strace and check that every staging file was
@@ -216,13 +223,16 @@ pub fn run_trace(_w: &str) -> i32 {
     match trace_flush_order() { Some(what) => { println!("REPRODUCED: {what}"); 1 } None => { println!("not reproduced: every staging file is fsync'ed before its rename"); 0 } }
 }
 fn search_h(_contract: &str, as_twin: bool) -> i32 {
+    if let Some(what) = pair_id_injective() {
+        println!("WITNESS {{\"kind\":\"pairid\",\"what\":\"{}\"}}", what.replace('"', "'"));
+    }
     if std::env::var("COPIA_BIN").unwrap_or_default().is_empty() { eprintln!("COPIA_BIN not set"); if as_twin { println!("CASES 0"); } return 0; }
     let mut cases = 0;
     for (i, (name, steps)) in scenarios().iter().enumerate() {
         cases += 1;
-        if let Some(what) = run_history(name, steps) {
+        let all = run_history_all(name, steps);
+        for what in &all {
             println!("WITNESS {{\"kind\":\"bisync\",\"scenario\":{i},\"name\":\"{name}\",\"what\":\"{}\"}}", what.replace('"', "'").replace('\n', " "));
-            if as_twin { continue; } else { return 1; }
         }
     }
     if as_twin { println!("CASES {cases}"); }
@@ -234,8 +244,20 @@ pub fn run_w(w: &str) -> i32 {
     let sc = scenarios();
     let (name, steps) = &sc[i.min(sc.len() - 1)];
     println!("history `{name}`: {steps:?}");
-    match run_history(name, steps) {
-        Some(what) => { println!("REPRODUCED: {what}"); 1 }
-        None => { println!("not reproduced: every clause holds on this history"); 0 }
-    }
+    let all = run_history_all(name, steps);
+    if all.is_empty() { println!("not reproduced: every clause holds on this history"); 0 } else { for w in &all { println!("REPRODUCED: {w}"); } 1 }
+}
+
+/// C07: two different directory pairs never share an archive identifier (shifted-split layout)
+pub fn pair_id_injective() -> Option<String> {
+    use crate::cli::archive::root_pair_hash;
+    let t = "/nonexistent-copia-verif/t";
+    let (a1, b1) = (format!("{t}/x"), format!("{t}/y{t}/z"));
+    let (a2, b2) = (format!("{t}/x{t}/y"), format!("{t}/z"));
+    let h1 = root_pair_hash(Path::new(&a1), Path::new(&b1));
+    let h2 = root_pair_hash(Path::new(&a2), Path::new(&b2));
+    if h1 == h2 { return Some(format!("root_pair_hash({a1:?}, {b1:?}) == root_pair_hash({a2:?}, {b2:?}) = {h1}: two different pairs share one archive (C07)")); }
+    let h3 = root_pair_hash(Path::new(&b1), Path::new(&a1));
+    if h3 == h1 { return Some("root_pair_hash is not order-sensitive (C07)".into()); }
+    None
 }
